@@ -92,8 +92,8 @@ pub open spec fn flat_tok(srcs: Seq<Arc<str>>, nms: Seq<Arc<str>>, bt: RawToken,
     &&& bt.dst_line == t.dst_line + off.0
     &&& bt.dst_col == (if t.dst_line == 0 { t.dst_col + off.1 } else { t.dst_col as int })
     &&& bt.src_line == t.src_line && bt.src_col == t.src_col && bt.is_range == t.is_range
-    &&& (match tok_source(m, t) { Some(s) => bt.src_id < srcs.len() && arc_chars(&srcs[bt.src_id as int]) == s, None => bt.src_id == 0xffff_ffffu32 })
-    &&& (match tok_name(m, t) { Some(n) => bt.name_id < nms.len() && arc_chars(&nms[bt.name_id as int]) == n, None => bt.name_id == 0xffff_ffffu32 })
+    &&& (match tok_source(m, t) { Some(s) => bt.src_id != 0xffff_ffffu32 && bt.src_id < srcs.len() && arc_chars(&srcs[bt.src_id as int]) == s, None => bt.src_id == 0xffff_ffffu32 })
+    &&& (match tok_name(m, t) { Some(n) => bt.name_id != 0xffff_ffffu32 && bt.name_id < nms.len() && arc_chars(&nms[bt.name_id as int]) == n, None => bt.name_id == 0xffff_ffffu32 })
 }
 /// the embedded text that comes with position o: the section map's contents for the token's source (none for a token without source)
 pub open spec fn pos_text(maps: Seq<SourceMap>, o: (int, int)) -> Option<Seq<char>> {
